@@ -22,42 +22,59 @@ def hexf(x):
 
 
 def run_dataset(spec, keep=None):
-    """spec = dict(n, e_min, step, extra_q, rows) -> (ok, result dict)"""
+    """spec = dict(n, e_min, step, extra_q, rows[, cut]) -> (ok, result dict)"""
     n = spec['n']
     rows = spec['rows']
     e_min, step = spec['e_min'], spec['step']
     e_max = e_min + (n - 1) * step
-    qbb = round(e_min + e_max + spec['extra_q'], 4)
-    if qbb < e_min + e_max:
-        qbb = round(e_min + e_max + 0.0001, 4) + 0.0001
+    cut = min(spec.get('cut', 0), n - 2)
     base = keep or os.path.join(WORK, 'd%d' % (STATS['datasets'] % 4))
     shutil.rmtree(base, ignore_errors=True)
     d_test = os.path.join(base, 'data/dbd_gA/v1.0/Test/g0')
-    e1, e2 = gatool.make_dataset(ENC, rows, e_min, step, qbb, d_test)
-    d_mo = os.path.join(base, 'data/dbd_gA/v1.0/Mo100/g0')
-    os.makedirs(d_mo, exist_ok=True)
-    for f in ('tab_pdf.data', 'tab_ocdf.data'):
-        shutil.copy(os.path.join(d_test, f), d_mo)
-    lines = [l.rstrip('\n') for l in open(os.path.join(d_test, 'tab_ocdf.data')) if l.strip() and not l.startswith('#')]
-    enc_lines = lines[2:]
-    with open(os.path.join(base, 'expect.txt'), 'w') as f:
-        # the loader reads Qbb with 4 decimals, e_min/e_max with 17 digits: pass the values as written to the file
-        hdr = lines[1].split()
-        f.write('%s %s %s %d\n' % (hexf(float(lines[0])), hexf(float(hdr[1])), hexf(float(hdr[3])), n))
-        f.write(' '.join(hexf(v) for v in e1) + '\n')
-        for r in e2:
-            f.write(' '.join(hexf(v) for v in r) + '\n')
-        for l in enc_lines:
-            f.write('L ' + l + '\n')
     pairs = 10000 if TIER == 'thorough' else 4000
-    r = subprocess.run([BIN, '--datadir', base, '--expect', os.path.join(base, 'expect.txt'), '--pairs', str(pairs), '--seed', str(SEED), '--mo100'],
-                       stdout=subprocess.PIPE, stderr=subprocess.PIPE, text=True, env=dict(os.environ, BXDECAY0_RESOURCE_DIR=os.path.join(os.environ.get('VERIF_REPO', '/repo'), 'resources')))
+    env = dict(os.environ, BXDECAY0_RESOURCE_DIR=os.path.join(os.environ.get('VERIF_REPO', '/repo'), 'resources'))
+    if cut > 0:
+        # the end point lies INSIDE the sampled triangle, half a step above the anti-diagonal i+j = n-1-cut; the p.d.f. loader demands zeros
+        # beyond it.  Only the p.d.f. format (rejection method) can express this: all-zero rows have no cumulative table.
+        qbb = round(2 * e_min + (n - 1 - cut) * step + 0.5 * step, 4)
+        rows = [[(v if i + j <= n - 1 - cut else 0.0) for j, v in enumerate(r)] for i, r in enumerate(rows)]
+        if sum(sum(r) for r in rows) <= 0:
+            rows[0][0] = 1.0
+        gatool.make_dataset(ENC, rows, e_min, step, qbb, d_test, pdf_only=True)
+        with open(os.path.join(base, 'expect.txt'), 'w') as f:
+            f.write('%s %s %s %d\n' % (hexf(qbb), hexf(e_min), hexf(step), n))
+        r = subprocess.run([BIN, '--datadir', base, '--expect', os.path.join(base, 'expect.txt'), '--pairs', str(pairs), '--seed', str(SEED), '--pdfonly'],
+                           stdout=subprocess.PIPE, stderr=subprocess.PIPE, text=True, env=env)
+        enc_lines = []
+    else:
+        qbb = round(e_min + e_max + spec['extra_q'], 4)
+        if qbb < e_min + e_max:
+            qbb = round(e_min + e_max + 0.0001, 4) + 0.0001
+        e1, e2 = gatool.make_dataset(ENC, rows, e_min, step, qbb, d_test)
+        d_mo = os.path.join(base, 'data/dbd_gA/v1.0/Mo100/g0')
+        os.makedirs(d_mo, exist_ok=True)
+        for f in ('tab_pdf.data', 'tab_ocdf.data'):
+            shutil.copy(os.path.join(d_test, f), d_mo)
+        lines = [l.rstrip('\n') for l in open(os.path.join(d_test, 'tab_ocdf.data')) if l.strip() and not l.startswith('#')]
+        enc_lines = lines[2:]
+        with open(os.path.join(base, 'expect.txt'), 'w') as f:
+            # the loader reads Qbb with 4 decimals, e_min/e_max with 17 digits: pass the values as written to the file
+            hdr = lines[1].split()
+            f.write('%s %s %s %d\n' % (hexf(float(lines[0])), hexf(float(hdr[1])), hexf(float(hdr[3])), n))
+            f.write(' '.join(hexf(v) for v in e1) + '\n')
+            for r in e2:
+                f.write(' '.join(hexf(v) for v in r) + '\n')
+            for l in enc_lines:
+                f.write('L ' + l + '\n')
+        r = subprocess.run([BIN, '--datadir', base, '--expect', os.path.join(base, 'expect.txt'), '--pairs', str(pairs), '--seed', str(SEED), '--mo100'],
+                           stdout=subprocess.PIPE, stderr=subprocess.PIPE, text=True, env=env)
     try:
         res = json.loads(r.stdout.strip().split('\n')[-1])
     except Exception:
         res = {'ok': False, 'cls': 'crash', 'msg': 'gacheck died: rc=%d %s' % (r.returncode, r.stderr[-800:]), 'pairs': 0, 'max_caret': 0, 'has_one': False}
     res['enc_lines'] = enc_lines[:3]
     res['qbb'] = qbb
+    res['cut'] = cut
     return res
 
 
@@ -87,11 +104,12 @@ def shape_rows(n, kind, params):
 
 
 spec_st = st.builds(
-    lambda n, e_min, step, extra_q, kind, c, w, d1, d2, k, zero_cells: dict(n=n, e_min=e_min, step=step, extra_q=extra_q, kind=kind,
-                                                                          params=dict(c=c, w=w, d1=d1, d2=d2, k=k), zero_cells=zero_cells),
+    lambda n, e_min, step, extra_q, kind, c, w, d1, d2, k, zero_cells, cut: dict(n=n, e_min=e_min, step=step, extra_q=extra_q, kind=kind,
+                                                                               params=dict(c=c, w=w, d1=d1, d2=d2, k=k), zero_cells=zero_cells, cut=cut),
     st.integers(2, 40), st.sampled_from([0.001, 0.01, 0.05, 0.2, 0.5]), st.sampled_from([0.01, 0.05, 0.1, 0.3]), st.sampled_from([0.0002, 0.001, 0.01, 0.5]),
     st.integers(0, 4), st.floats(0.0, 1.0), st.floats(0.05, 1.0), st.sampled_from([0.0, 0.3, 1.0, 2.0, 4.0]), st.sampled_from([0.0, 0.3, 1.0, 2.0, 4.0, 8.0]), st.integers(0, 20),
-    st.lists(st.tuples(st.integers(0, 39), st.integers(0, 39)), max_size=6))
+    st.lists(st.tuples(st.integers(0, 39), st.integers(0, 39)), max_size=6),
+    st.sampled_from([0, 0, 0, 1, 2, 5]))   # cut > 0: end point inside the sampled triangle (p.d.f. / rejection method only)
 
 
 def realise(spec):
@@ -119,6 +137,10 @@ def prop(spec):
     if res.get('slow_rejection'):
         STATS['labels']['rejection-sampler-too-slow-to-check'] = STATS['labels'].get('rejection-sampler-too-slow-to-check', 0) + 1
     lab = 'kind%d' % spec['kind']
+    if res.get('cut'):
+        STATS['labels']['endpoint-inside-triangle(pdf-only)'] = STATS['labels'].get('endpoint-inside-triangle(pdf-only)', 0) + 1
+        if res['ok'] and not res.get('slow_rejection'):
+            STATS['nontrivial'].add(hashlib.sha1(json.dumps(spec, sort_keys=True).encode()).hexdigest())
     STATS['labels'][lab] = STATS['labels'].get(lab, 0) + 1
     if res['ok'] and res['max_caret'] >= 3 and res['has_one']:
         STATS['nontrivial'].add(hashlib.sha1(json.dumps(spec, sort_keys=True).encode()).hexdigest())
